@@ -84,7 +84,20 @@ func solve(name string, query string, modelVars []ModelVar, timeoutS int, expect
 			cmd.Stderr = &out
 			cmd.Run()
 			o := out.String()
-			first := strings.TrimSpace(strings.SplitN(o, "\n", 2)[0])
+			// the answer is the first line that is not a warning (z3 prints
+			// "WARNING: ... cannot be used in patterns" before it)
+			first := ""
+			for _, ln := range strings.Split(o, "\n") {
+				ln = strings.TrimSpace(ln)
+				if ln == "" || strings.HasPrefix(ln, "WARNING") {
+					continue
+				}
+				first = ln
+				break
+			}
+			if i := strings.Index(o, first); i > 0 && first != "" {
+				o = o[i:]
+			}
 			st := "unknown"
 			switch {
 			case first == "unsat":
